@@ -2725,7 +2725,7 @@ func ruleChildResult(w *World, r *Report, pf *patchFamily) {
 			}
 			// whether the patched child is kept in this node is decided by looking at the patched child:
 			// every branch between the call and the store of its result tests something derived from the call
-			d := NewDeriv(w, fn)
+			_ = NewDeriv
 			allInstrs(fn, func(in ssa.Instruction) {
 				var stored ssa.Value
 				switch x := in.(type) {
@@ -2739,38 +2739,66 @@ func ruleChildResult(w *World, r *Report, pf *patchFamily) {
 				if stored == nil || !flowsTo(res, stored, 0) {
 					return
 				}
+				// (a) the edges on which the patched child is known not to be void
+				var nonVoid []Edge
+				conditional := false
 				for _, bb := range fn.Blocks {
 					cond, tE, fE, ok := branchEdges(bb)
-					if !ok || !call.Block().Dominates(bb) || bb == call.Block() && false {
+					if !ok || !call.Block().Dominates(bb) {
 						continue
 					}
-					if !(edgeDominates(tE, in.Block()) || edgeDominates(fE, in.Block()) || tE.To() == in.Block() && len(in.Block().Preds) == 1 || fE.To() == in.Block() && len(in.Block().Preds) == 1) {
-						continue
+					rT := reachFrom(tE.To(), nil)[in.Block()]
+					rF := reachFrom(fE.To(), nil)[in.Block()]
+					neg := false
+					c0 := cond
+					for {
+						u, isU := c0.(*ssa.UnOp)
+						if !isU || u.Op != token.NOT {
+							break
+						}
+						c0, neg = u.X, !neg
 					}
-					fromCall := false
-					var mentions func(v ssa.Value, depth int)
-					seenM := map[ssa.Value]bool{}
-					mentions = func(v ssa.Value, depth int) {
-						if v == nil || depth > 8 || seenM[v] || fromCall {
-							return
-						}
-						seenM[v] = true
-						if v == ssa.Value(call) {
-							fromCall = true
-							return
-						}
-						if in2, isIn := v.(ssa.Instruction); isIn {
-							for _, op := range in2.Operands(nil) {
-								if *op != nil {
-									mentions(*op, depth+1)
-								}
+					if vc, isCall := c0.(*ssa.Call); isCall && len(vc.Call.Args) == 1 && flowsTo(res, vc.Call.Args[0], 0) {
+						if sf := staticCallee(vc); sf != nil && w.helperIs(sf, "isVoid") {
+							if neg {
+								nonVoid = append(nonVoid, tE)
+							} else {
+								nonVoid = append(nonVoid, fE)
 							}
+							continue
 						}
 					}
-					mentions(cond, 0)
-					_ = d
-					if !fromCall {
-						keepBad = fmt.Sprintf("the store of the patched child at %s is decided by a test at %s that does not look at the patched child", w.Pos(in.Pos()), w.Pos(cond.Pos()))
+					// the error test of the call itself is not a decision about keeping the child
+					if bo, isBo := c0.(*ssa.BinOp); isBo {
+						if ex, isEx := bo.X.(*ssa.Extract); isEx && ex.Tuple == ssa.Value(call) && isNilConst(bo.Y) {
+							continue
+						}
+					}
+					if rT != rF {
+						conditional = true
+					}
+				}
+				if len(nonVoid) == 0 {
+					if conditional {
+						keepBad = fmt.Sprintf("the store of the patched child at %s is conditional, but no test looks at whether the patched child is void", w.Pos(in.Pos()))
+					}
+					return
+				}
+				// (b) from such an edge every way out of the function passes the store
+				for _, e := range nonVoid {
+					seenB := map[*ssa.BasicBlock]bool{}
+					work := []*ssa.BasicBlock{e.To()}
+					for len(work) > 0 {
+						x := work[len(work)-1]
+						work = work[:len(work)-1]
+						if seenB[x] || x == in.Block() {
+							continue
+						}
+						seenB[x] = true
+						if _, isRet := x.Instrs[len(x.Instrs)-1].(*ssa.Return); isRet {
+							keepBad = fmt.Sprintf("a patched child that is not void can fail to be stored: from the test at %s a return at %s is reachable without the store at %s", w.Pos(firstPos(e.From)), w.Pos(firstPos(x)), w.Pos(in.Pos()))
+						}
+						work = append(work, x.Succs...)
 					}
 				}
 			})
@@ -2916,4 +2944,84 @@ func sameNodeViewDepth(fn *ssa.Function, depth int) bool {
 		}
 	}
 	return true
+}
+
+// ruleLoopFresh — R-LOOPFRESH. A function that builds one hunk per iteration of
+// a loop gives every hunk value lists of its own: a list stored into a hunk
+// field inside a loop is allocated inside that loop (or is the input hunk's
+// own list). A buffer made before the loop and re-sliced per iteration is
+// shared by all the hunks built: they all end up holding the last iteration's
+// values.
+func ruleLoopFresh(w *World, r *Report, pkg *ssa.Package, tag string, fnNames [][2]string, fields ...string) {
+	rule := "R-LOOPFRESH"
+	if tag != "v2" {
+		rule += "(" + tag + ")"
+	}
+	h := newHunkType(pkg)
+	for _, tm := range fnNames {
+		var fn *ssa.Function
+		if tm[0] == "" {
+			fn = w.FuncOpt(pkg, tm[1])
+		} else {
+			fn = w.MethodOpt(pkg, tm[0], tm[1])
+		}
+		if fn == nil || fn.Blocks == nil {
+			continue
+		}
+		r.Fn(fnName(fn))
+		lps := loopsOf(fn)
+		bad := ""
+		n := 0
+		for _, f := range fields {
+			for _, fs := range h.fieldStores(fn, f) {
+				l := innermostLoop(lps, fs.st.Block())
+				// the outermost loop containing the store
+				for _, l2 := range lps {
+					if l2.Blocks[fs.st.Block()] && (l == nil || len(l2.Blocks) > len(l.Blocks)) {
+						l = l2
+					}
+				}
+				if l == nil {
+					continue
+				}
+				n++
+				// allocation sites of the stored slice
+				seen := map[ssa.Value]bool{}
+				var walk func(v ssa.Value, depth int)
+				walk = func(v ssa.Value, depth int) {
+					v = strip(v)
+					if v == nil || seen[v] || depth > 12 {
+						return
+					}
+					seen[v] = true
+					switch x := v.(type) {
+					case *ssa.MakeSlice:
+						if !l.Blocks[x.Block()] {
+							bad = fmt.Sprintf("the %s list stored at %s is backed by the buffer made at %s, outside the loop that builds the hunks", f, w.Pos(fs.st.Pos()), w.Pos(x.Pos()))
+						}
+					case *ssa.Slice:
+						if al, ok := x.X.(*ssa.Alloc); ok {
+							if !l.Blocks[al.Block()] {
+								bad = fmt.Sprintf("the %s list stored at %s is backed by an array allocated at %s, outside the loop that builds the hunks", f, w.Pos(fs.st.Pos()), w.Pos(al.Pos()))
+							}
+							return
+						}
+						walk(x.X, depth+1)
+					case *ssa.Phi:
+						for _, e := range x.Edges {
+							walk(e, depth+1)
+						}
+					case *ssa.Call:
+						if b, ok := x.Call.Value.(*ssa.Builtin); ok && b.Name() == "append" {
+							walk(x.Call.Args[0], depth+1)
+						}
+					}
+				}
+				walk(fs.st.Val, 0)
+			}
+		}
+		r.Check(bad == "", rule, fnName(fn)+":per-hunk-lists", w.Pos(fn.Pos()),
+			fmt.Sprintf("the %d value lists stored into hunks inside loops are allocated per iteration", n),
+			bad+": every hunk built by the loop shares one backing array and ends up with the values of the last one")
+	}
 }
